@@ -117,15 +117,34 @@ def enumerate_cases(tier):
                     for vf in (0, 2):
                         V = S(9 * one + (7 if vf == 0 else 0), vf == 2)
                         recs += [['sl_set', L, ix, V], ['sl_ins', L, ix, V]]
+        # constructor inference and values whose flag is None (deterministic samples, not exhaustive)
+        from vlib.fxp import fl
+        misc = []
+        for x in (0.1, 0.3, 0.7, 3.0 - 2.0 ** -30, -0.1, -0.7, 1 / 3, 2 / 3, 0.999, 1e-9, 0.5, 1.5, 2.0, -3.0, 1.0 + 2.0 ** -40):
+            misc += [['neg', ['c', fl(x)]], ['mul', ['c', fl(x)], S(3 * one + 1)], ['add', ['c', fl(x)], S(one, True)]]
+        for n_ in (0, 1, -3, 7):
+            misc += [['neg', ['c', n_]], ['mul', ['c', n_], S(one + 1)]]
+        for y in (one + 1, 3 * one + 77, -(2 * one + 5), 7 * one + 1):
+            for k in (1, 2):
+                misc += [['div', S(5 * one + 3), ['trunc', S(y << k), k, False]],
+                         ['mul', ['trunc', S(y << k), k, False], S(one + 3)],
+                         ['abs', ['trunc', S(-(y << k)), k, False]],
+                         ['cmp', 'lt', ['trunc', S(y << k), k, False], S(one)]]
+            misc += [['conv', S(y), l + 8, f + 4], ['mul', ['conv', S(y), l + 8, f + 4], S(2 * one, True)]]
+        for sh in (f - 1, f, f + 1, 1):
+            misc += [['lshift', S(3), sh], ['lshift', S(one, True), 1]]
+        for i in range(0, len(misc), 30):
+            yield dict(m=1, t=0, prss=True, l=l, f=f, seed=i, recs=misc[i:i + 30], grid='misc')
+        yield dict(m=3, t=1, prss=False, l=l, f=f, seed=5, recs=misc[::5], grid='misc')
         safe = [r for r in recs if not _static_exposed(r)]
         inclass = [r for r in recs if _static_exposed(r)]
-        size = 120
+        size = 30
         for k, part in (('outside-F3', safe), ('inside-F3', inclass)):
             for i in range(0, len(part), size):
                 yield dict(m=1, t=0, prss=True, l=l, f=f, seed=i, recs=part[i:i + size], grid=k)
         # the same records with real sharings: a sample of both parts
-        for i in range(0, len(safe), 16 * size):
-            yield dict(m=3, t=1, prss=bool((i // size) % 2), l=l, f=f, seed=i, recs=safe[i:i + 40], grid='outside-F3')
+        for i in range(0, len(safe), 64 * size):
+            yield dict(m=3, t=1, prss=bool((i // size) % 2), l=l, f=f, seed=i, recs=safe[i:i + 30], grid='outside-F3')
         yield dict(m=3, t=1, prss=True, l=l, f=f, seed=1, recs=inclass[:30], grid='inside-F3')
 
 
